@@ -584,15 +584,90 @@ func c30eval(c c30case) (viols []c30viol, outcome string, nontrivial bool) {
 	return viols, strings.Join(classes, ","), nontrivial
 }
 
+
+// ---- "reply lost" family: the k-th command of one Exec is executed by the server but its reply is lost (transport
+// error). The wrapper then does what the real client does with retries enabled (C28): it sends the command again iff
+// the command is flagged retryable (read-only or ToRetryable). A script whose constructor did not opt in must not run twice.
+
+type c30lostCase struct {
+	Kind   int  `json:"kind"`
+	Loaded bool `json:"loaded"`
+	LostAt int  `json:"reply_lost_at_command"`
+	Lost   bool `json:"lost_family"`
+}
+
+type c30retryClient struct {
+	*VerifSimClient
+	n, lostAt int
+	log       []string
+}
+
+func (c *c30retryClient) Do(ctx context.Context, cmd Completed) RedisResult {
+	argv := append([]string{}, cmd.Commands()...)
+	retryable := cmd.IsRetryable()
+	c.n++
+	r := c.VerifSimClient.Do(ctx, cmd)
+	c.log = append(c.log, fmt.Sprintf("%s(retryable=%v)", argv[0], retryable))
+	if c.n == c.lostAt {
+		c.log = append(c.log, "reply lost")
+		if !retryable {
+			return NewErrorResult(c30errTransport)
+		}
+		c.log = append(c.log, argv[0]+" re-sent by the retry loop")
+		return c.VerifSimClient.raw(argv)
+	}
+	return r
+}
+
+func (c *c30retryClient) Nodes() map[string]Client { return map[string]Client{"sim:6379": c} }
+
+func c30lost(c c30lostCase) (viols []c30viol, outcome string) {
+	kd := c30kinds[c.Kind]
+	script := c30rw
+	if kd.ro {
+		script = c30ro
+	}
+	srv := simredis.New()
+	srv.EnableLua()
+	cl := &c30retryClient{VerifSimClient: NewVerifSimClient(srv, ClientOption{DisableCache: true}), lostAt: c.LostAt}
+	if c.Loaded {
+		srv.Do("SCRIPT", "LOAD", script)
+	}
+	lua := kd.make(script)
+	runs0 := srv.ScriptRuns
+	var res RedisResult
+	p, site := vrun.Catch(func() { res = lua.Exec(context.Background(), cl, []string{"c30k"}, []string{"a"}) })
+	if p != nil {
+		return []c30viol{{"panic in " + site, fmt.Sprint(p)}}, "panic"
+	}
+	d := srv.ScriptRuns - runs0
+	optedIn := kd.ro || strings.Contains(kd.name, "Retryable")
+	if d > 1 && !optedIn {
+		viols = append(viols, c30viol{"Exec: script body executed more than once per LuaExec (reply lost, command re-sent by the retry loop)",
+			fmt.Sprintf("%s, script cache loaded=%v, reply of command %d lost: the server ran the body %d times; commands: %v; result err %v", kd.name, c.Loaded, c.LostAt, d, cl.log, res.Error())})
+	}
+	return viols, fmt.Sprintf("lost-reply: body ran %d time(s), opted-in=%v", d, optedIn)
+}
+
 func TestVerif_C30(t *testing.T) {
 	vrun.Main(t, "C30", func(r *vrun.Run) {
 		r.Rule = "every constructor (incl. retryable) x WithLoadSHA1(none/true/false) x script cache {loaded, empty} x {Exec, ExecMulti with 1..3 LuaExec} x 0..2 keys x 0..2 args x " +
 			"2 (thorough 3) consecutive runs on the same *Lua, each run with mode in {ok, error_reply ERR / NOSCRIPT-prefixed / lower-case noscript, error(), transport error on command 1/2/3, SCRIPT LOAD error reply} " +
-			"x cache flushed before the run x cache flushed right after the run's SCRIPT LOAD; non-trivial = fallback, load, fault or flush exercised"
+			"x cache flushed before the run x cache flushed right after the run's SCRIPT LOAD; plus, per constructor x cache state, one Exec whose 1st/2nd/3rd command is executed but its reply lost, after which the command is re-sent iff it is flagged retryable (what the client's retry loop does); non-trivial = fallback, load, fault or flush exercised"
 		r.Assume("simredis + mini-Lua execute the script text sent by the library; EVAL caches the script, EVALSHA of an unknown sha answers NOSCRIPT, redis.error_reply(x) answers -x verbatim (as Redis does)")
 		r.Assume("ExecMulti is documented to SCRIPT LOAD on every call; the 'SCRIPT LOAD only until it first succeeds' clause is checked for Exec only")
 		r.Assume("single node client: ExecMulti's fan-out over Nodes() has one member")
 		if raw, ok := r.ReplayPayload(); ok {
+			var lc c30lostCase
+			if json.Unmarshal(raw, &lc) == nil && lc.Lost {
+				r.Evaluations++
+				vs, outcome := c30lost(lc)
+				r.Outcome(outcome)
+				for _, v := range vs {
+					r.Violate(v.sig, v.detail, lc)
+				}
+				return
+			}
 			var c c30case
 			if err := json.Unmarshal(raw, &c); err != nil {
 				r.MachineryError = "bad replay payload: " + err.Error()
@@ -664,6 +739,24 @@ func TestVerif_C30(t *testing.T) {
 						cc := c
 						cc.Runs = append(append([]c30runCfg{}, c.Runs...), c30runCfg{Mode: m, FlushBefore: fb == 1, FlushAfterLoad: fl == 1})
 						rec(cc, depth+1)
+					}
+				}
+			}
+		}
+		if r.Mine(0) {
+			for k := range c30kinds {
+				for loaded := 0; loaded < 2; loaded++ {
+					for at := 1; at <= 3; at++ {
+						lc := c30lostCase{Kind: k, Loaded: loaded == 1, LostAt: at, Lost: true}
+						r.Evaluations++
+						b, _ := json.Marshal(lc)
+						r.StateStr(string(b))
+						r.NonTrivialStr(string(b))
+						vs, outcome := c30lost(lc)
+						r.Outcome(outcome)
+						for _, v := range vs {
+							r.Violate(v.sig, v.detail, lc)
+						}
 					}
 				}
 			}
